@@ -261,7 +261,8 @@ def run(tier):
              "values incl. every pair of distinct variants; value and call trace must equal those of an explicit field-wise reference run on snapshots; "
              "non-trivial = >= 2 fields or >= 2 variants; distinct by shape|list|entry",
         bounds="structs (unit/tuple/named) with 0..4 fields; enums with <=3 variants of kinds unit/tuple1/tuple2/named1..3; field types R (call-recording), u8, RC (Copy with recording Clone), "
-               "&'a R, (R,u8), [R;2], Option<R>, generic A:=R; Clone alone and co-derived with Copy/Debug/PartialEq/Default; bound(..) decorations; trace <= 12 events (unwind 14)",
-        outside="more than 3 variants or 4 fields per variant; empty enums (rustc rejects the generated match, property C20)",
+               "&'a R, (R,u8), [R;2], Option<R>, RE (recording, with every derivable trait), generic A:=R; Clone alone and co-derived with Copy / Debug / Default / the comparison traits / Hash (with an ignored field); "
+               "field names not in alphabetical order; enums of 17 and 33 (thorough 9..65) variants with two data-carrying ones; bound(..) decorations; trace <= 12 events (unwind 14)",
+        outside="more than 4 fields per variant; more than 3 data-carrying variants (the many-variant shapes have two); empty enums are C12's subject",
         functions=["Clone::clone and Clone::clone_from generated by derive_ex for each program"],
         assumptions=["the call trace is observed through a static mut array written by R::clone / R::clone_from / RC::clone*"])
